@@ -14,6 +14,8 @@ pub trait Src {
     fn assume(&mut self, c: bool);
     fn fail(&mut self, label: &'static str);
     fn covered(&mut self, label: &'static str);
+    /// human-readable description of the concrete input (native replay only)
+    fn note(&mut self, _m: String) {}
 
     fn bool(&mut self) -> bool {
         let v = self.u8();
@@ -69,13 +71,14 @@ pub struct RSrc {
     pub covered: Vec<&'static str>,
     pub assume_violated: bool,
     pub exhausted: bool,
+    pub notes: Vec<String>,
 }
 
 #[cfg(not(kani))]
 #[allow(dead_code)]
 impl RSrc {
     pub fn new(vals: Vec<Vec<u8>>) -> Self {
-        RSrc { vals, pos: 0, failed: Vec::new(), covered: Vec::new(), assume_violated: false, exhausted: false }
+        RSrc { vals, pos: 0, failed: Vec::new(), covered: Vec::new(), assume_violated: false, exhausted: false, notes: Vec::new() }
     }
     fn next(&mut self, n: usize) -> u64 {
         let mut out = 0u64;
@@ -116,6 +119,24 @@ impl Src for RSrc {
     fn covered(&mut self, label: &'static str) {
         self.covered.push(label);
     }
+    fn note(&mut self, m: String) {
+        self.notes.push(m);
+    }
+}
+
+/// Describe the concrete input in native replay (no-op under Kani).
+#[allow(unused_macros)]
+macro_rules! pv_note {
+    ($s:expr, $($arg:tt)*) => {{
+        #[cfg(kani)]
+        {
+            let _ = &$s;
+        }
+        #[cfg(not(kani))]
+        {
+            $s.note(format!($($arg)*));
+        }
+    }};
 }
 
 /// Property assertion: `assert!` under Kani (the label is the check description), a recorded
@@ -216,6 +237,16 @@ impl<const N: usize> SymStr<N> {
             i += 1;
         }
         SymStr { cs, n }
+    }
+    /// exactly N characters, every character any scalar value
+    pub fn exact<S: Src>(s: &mut S) -> Self {
+        let mut cs = ['\0'; N];
+        let mut i = 0;
+        while i < N {
+            cs[i] = s.ch();
+            i += 1;
+        }
+        SymStr { cs, n: N }
     }
     /// characters drawn from an alphabet (symbolic index)
     pub fn from_alphabet<S: Src>(s: &mut S, sigma: &[char]) -> Self {
